@@ -19,7 +19,8 @@ def run(ctx):
                 "tuple in tuple / in frozenset, tuple of list, list -- x 15 shapes -- positional / keyword arguments, list / tuple / "
                 "dict / set members, argument + member -- x gifts from one / two owners; whole and cut, three fixed witnesses of the "
                 "cut between a back-reference's INT and CLOSE), structure, one-proxy-per-original and call target checked at "
-                "invocation; one placeholder Deferred subscribed by every sequence of 1-3 real unslicers, compared with Refs.fire")
+                "invocation; one placeholder Deferred subscribed by every sequence of 1-3 real unslicers, compared with Refs.fire; regift family (three real Tubs: the holder drops its only proxy and re-receives the object with the decref / its "
+                "answer under way at every position, then gives the re-received proxy to a third Tub; 8 fixed witnesses + random scripts)")
     ctx.assumptions = [
         "CPython collects a proxy on the last `del` (+gc.collect()): DropProxy is an explicit action; modelled, not verified",
         "FIFO byte streams both ways, one queue item per top-level banana object; eventual-queue FIFO order relied upon",
@@ -71,6 +72,7 @@ def run(ctx):
                              got=who), has_input=False)
     results = R.check_refs(ctx, "C08", "redelivery-while-held")
     c08_impl.gifts(ctx)
+    c08_impl.regift(ctx)
     c08_impl.multi_gifts(ctx)
     c08_impl.reconnect(ctx, "C08")
     model_ok = ok
